@@ -177,6 +177,42 @@ func ext۰reflect۰rtype۰Field(fr *frame, args []value) value {
 	return structFieldValue(st, i)
 }
 
+// FieldByName on a type: the field found by Go's promotion rules, with its full index path.
+func ext۰reflect۰rtype۰FieldByName(fr *frame, args []value) value {
+	t := args[0].(rtype).t
+	if _, ok := t.Underlying().(*types.Struct); !ok {
+		panic("reflect: FieldByName of non-struct type " + t.String())
+	}
+	name := args[1].(string)
+	obj, index, _ := types.LookupFieldOrMethod(t, true, nil, name)
+	if v, isVar := obj.(*types.Var); !isVar || v == nil || len(index) == 0 {
+		var zeroSF value
+		if m := fr.i.reflectPackage.Type("StructField"); m != nil {
+			zeroSF = zero(m.Type())
+		}
+		return tuple{zeroSF, false}
+	}
+	cur := t
+	var sf value
+	for k, i := range index {
+		if p, ok := cur.Underlying().(*types.Pointer); ok {
+			cur = p.Elem()
+		}
+		st := cur.Underlying().(*types.Struct)
+		if k == len(index)-1 {
+			sf = structFieldValue(st, i)
+		}
+		cur = st.Field(i).Type()
+	}
+	sfs := sf.(structure)
+	idx := make([]value, len(index))
+	for k, i := range index {
+		idx[k] = i
+	}
+	sfs[5] = idx
+	return tuple{sfs, true}
+}
+
 func sigOf(t types.Type) *types.Signature {
 	s, ok := t.Underlying().(*types.Signature)
 	if !ok {
@@ -1290,7 +1326,7 @@ func initReflect(i *interpreter) {
 
 	i.rtypeMethods = methodSet{}
 	for _, n := range []string{"Bits", "Elem", "Key", "Field", "In", "Kind", "NumField", "NumIn", "NumMethod", "NumOut", "Out", "Size",
-		"String", "Name", "PkgPath", "IsVariadic", "Method", "MethodByName", "AssignableTo", "ConvertibleTo", "Implements", "Comparable", "Len"} {
+		"String", "Name", "PkgPath", "IsVariadic", "Method", "MethodByName", "AssignableTo", "ConvertibleTo", "Implements", "Comparable", "Len", "FieldByName"} {
 		i.rtypeMethods[n] = newMethod(i.reflectPackage, rtypeType, n)
 	}
 	i.errorMethods = methodSet{
